@@ -98,7 +98,9 @@ var messages = []string{"", "bad value", "值不对", "值 bad", "x", "字", "a=
 	// messages ending in characters of the clause separator: verbatim means nothing is trimmed from them
 	"ends with;", "ends with space ", "结尾;", "too big ;", ";", " lead",
 	// non-ASCII without any CJK ideograph: the English label
-	"can’t be empty", "Größe ungültig", "ошибка", "かな", "€5…"}
+	"can’t be empty", "Größe ungültig", "ошибка", "かな", "€5…",
+	// formatting-verb look-alikes
+	"100% sure", "不能超过100%", "%d items", "%", "%s%v%[1]d", "50%!"}
 
 func withMsg(rule, msg string) string {
 	if msg == "" {
